@@ -23,7 +23,11 @@ META = {
             "AddEndorsement::Execute (C19_atv_accepted_iff_timely, C19_atv_window_exact, C19_vtb_window_exact, four "
             "off-by-one _refuted), fork independent (C19_honest_atv_any_fork, C19_honest_atv_two_forks) and monotone "
             "until the window closes (C19_atv_accept_transfers, C19_atv_accept_monotone_along_chain, "
-            "C19_atv_window_closes); C19_full_premises_satisfiable. Tie to the code: always-accept oracle on "
+            "C19_atv_window_closes); C19_full_premises_satisfiable; the honest BTC context is the shortest connecting one "
+            "(C19_honest_vtb_context_minimal). The construction itself is executed against the code: the extracted "
+            "honest_vtbs rebuilds every VTB from (containing block, endorsed height, block of proof) and must equal the "
+            "payload MockMiner::createVTB built (VBK/BTC forks, unreferenced context gaps, distances settlement-1/0/+1), "
+            "and the chain with the model-built VTBs must get the library's verdict. Tie to the code: always-accept oracle on "
             "generated honest histories (every endorsable block incl. side forks, window boundaries, VBK/BTC forking, "
             "delivery through blocks and through the mempool), stateless checks, endorsement visible in "
             "containing/endorsedBy/blockOfProof lists, abort handler; extracted model vs library on every verdict. "
@@ -80,6 +84,160 @@ def cases_for(ctx):
     return cases
 
 
+# ---------------------------------------------------------------------------------------------
+# honest VTB construction: the extracted honest_vtbs (Rules/C19HonestDefs.v) against MockMiner
+# ---------------------------------------------------------------------------------------------
+HV_WINDOW = ["settle-1", "settle", "settle+1", "near", "any"]
+
+
+def _nearest_known(g, ref, b, vpar):
+    """the miner's input lastKnownBtcBlock: nearest block at or below b that the chain references (b0 always is)"""
+    while not g.btc_ok(ref, b, vpar):
+        b = g.btc[b]["parent"]
+    return b
+
+
+def case_hvtb(rng, window):
+    """ALT chain with a side fork; every block carries 1-3 VTBs built by the library's MockMiner (registry op `vtb`)
+    from (endorsed block, containing parent on a random VBK fork, BTC parent anywhere in the BTC tree incl. forks and
+    unreferenced gaps, last known BTC block = nearest referenced one); distance containing - endorsed aimed at the VBK
+    settlement interval -1 / 0 / +1.  The model rebuilds the VTBs from (containing, endorsed height, block of proof)."""
+    r = rng
+    cfg = R.small_cfg(r)
+    cfg["vbk_settle"] = r.range(3, 5)
+    g = R.RulesGen(r, cfg)
+    vs = g.vsettle
+    for _ in range(vs + 2):
+        g.mine_vbk()
+    blocks = ["a0"]
+    g.hv = []                       # (alt block, [vtb ids], expired?)
+    n = r.range(3, 5)
+    for step in range(n):
+        if r.chance(1, 3):
+            g.mine_vbk(g.pick_vparent((1, 2)))
+        if r.chance(1, 2):
+            g.mine_btc(r.choice(sorted(g.btc, key=lambda b: int(b[1:]))))
+        last_step = step == n - 1
+        P = blocks[-1] if r.chance(3, 4) else r.choice(blocks)
+        a = g.new_alt(P)
+        ref = dict(g.alt[P]["kbref"])
+        ws = []
+        expired = False
+        for j in range(r.range(1, 3)):
+            vpar = g.pick_vparent((1, 3))
+            hc = g.vbk[vpar]["height"] + 1
+            anc = g.v_anc(vpar, vs + 2)
+            k = window if j == 0 else r.choice(["near", "any"])
+            if k == "settle+1" and not last_step:
+                k = "settle"
+            d = {"settle-1": vs - 1, "settle": vs, "settle+1": vs + 1, "near": 1}.get(k) or r.range(1, vs)
+            d = max(1, min(d, len(anc)))
+            e = anc[d - 1]            # height hc - d
+            bpar = r.choice(sorted(g.btc, key=lambda b: int(b[1:])))
+            for _ in range(r.below(3)):
+                bpar = g.mine_btc(bpar)              # unreferenced BTC blocks between the known block and the proof
+            last = _nearest_known(g, ref, bpar, vpar)
+            if hc - g.vbk[e]["height"] > vs:
+                w = g.make_xvtb(e, last, vparent=vpar, bparent=bpar)     # the miner's own validation would refuse
+                expired = True
+            else:
+                w = g.make_vtb(e, last, vparent=vpar, bparent=bpar)
+            ws.append(w)
+            g.ref_add(ref, w)
+            if expired:
+                break
+        g.set_pd(a, vtbs=ws)
+        g.decl("hvtbs", a)
+        g.decl("hverdict", a)
+        g.show(a, headers_first=r.chance(1, 2))
+        if expired:
+            g.verdict(a)
+        else:
+            g.verdict(a, tag=("accept", a))
+            blocks.append(a)
+        g.hv.append((a, ws, expired))
+    g.on("audit", tag=("audit",))
+    g.meta = dict(mutation="honest_vtb_" + window, planted=False, depth=len(blocks), desc=0)
+    return g
+
+
+def honest_vtb_stage(ctx):
+    """model's honest construction vs MockMiner's payloads, and the verdict of the chain with the MODEL-built VTBs vs
+    the library's verdict on the MockMiner-built ones"""
+    okm, model, _ = vlib.build_model("Rules")
+    okh, hs, _ = vlib.build_harness(["h_rules"])
+    if not (okm and okh):
+        ctx.broken.append("honest-vtb stage: build failed")
+        return
+    reps = 3 if ctx.tier == "quick" else 40
+    cases = []
+    for i in range(reps):
+        for wdw in HV_WINDOW:
+            cases.append(("hv%d" % len(cases), case_hvtb(ctx.rng.fork(), wdw)))
+    ires, mres, orc, aborted = R.run_histories(vlib, ctx, hs["h_rules"], model, cases)
+    st = dict(histories=len(cases), vtbs_compared=0, vtbs_equal=0, blocks=0, verdicts_compared=0, accepted=0,
+              expired_refused=0, with_context_gap=0, on_vbk_fork=0, on_btc_fork=0, window={})
+    for p, g in cases:
+        idx = {}
+        for i, l in enumerate(g.lines):
+            w = l.split()
+            if w[0] == "on" and w[2] in ("vtbinfo", "verdict"):
+                idx[(w[2], w[3])] = "%s.%d" % (p, i + 1)
+            if w[0] == "decl" and w[1] in ("hvtbs", "hverdict"):
+                idx[(w[1], w[2])] = "%s.%d" % (p, i + 1)
+        if [a for a in aborted if a[0] == p]:
+            ctx.violation(R.to_replay(g, {"what": "the harness process died on an honest VTB history"}))
+            continue
+        f04, f19, mirror = R.evaluate(g, ires, p)
+        if mirror:
+            ctx.broken.append("generator-mirror (honest VTB stage): %s %s" % (p, mirror[0][1:]))
+            continue
+        if f19:
+            ctx.violation(R.to_replay(g, {"what": "direct oracle failed (honest VTBs built by MockMiner)", "failed": f19[:6]}))
+            continue
+        for a, ws, expired in g.hv:
+            st["blocks"] += 1
+            impl = ";".join(ires.get(idx[("vtbinfo", w)], "?") for w in ws)
+            mod = mres.get(idx[("hvtbs", a)], "?")
+            st["vtbs_compared"] += len(ws)
+            iv, mv = ires.get(idx[("verdict", a)], "?"), mres.get(idx[("hverdict", a)], "?")
+            st["verdicts_compared"] += 1
+            for w in ws:
+                d = g.vtb[w]
+                if len(d["bctx"]) > 1:
+                    st["with_context_gap"] += 1
+                if not g.v_is_anc(d["containing"], g.vtip):
+                    st["on_vbk_fork"] += 1
+                if not g.b_is_anc(d["bop"], g.btip):
+                    st["on_btc_fork"] += 1
+                k = g.vbk[d["containing"]]["height"] - g.vbk[d["endorsed"]]["height"] - g.vsettle
+                st["window"][str(k)] = st["window"].get(str(k), 0) + 1
+            if impl == mod:
+                st["vtbs_equal"] += len(ws)
+            else:
+                pth = ctx.replay_path(R.to_replay(g, {"what": "extracted honest_vtbs differs from the VTBs MockMiner built",
+                                                      "block": a, "model": mod, "mockminer": impl}))
+                ctx.broken.append("corr:C19HonestDefs.honest_vtbs: first disagreeing input %s: block %s model %s / MockMiner %s"
+                                  % (pth, a, mod, impl))
+            if iv.startswith("SKIP"):
+                continue
+            mt, it = mv.split(), iv.split()
+            same = mt[:1] == it[:1] and (mt[0] == "true" or (mt[1:2] == it[1:2] and (it[2:3] == ["marked"] or mt[2:3] == it[2:3])))
+            if mv == "true" and not expired:
+                st["accepted"] += 1
+            if expired and mt[:1] == ["false"] and mt[2:3] == ["vexpired"]:
+                st["expired_refused"] += 1
+            if not same:
+                if mv == "true":
+                    ctx.violation(R.to_replay(g, {"what": "the proved rule set accepts the honestly built VTBs, the library refuses them",
+                                                  "block": a, "model": mv, "library": iv}))
+                else:
+                    pth = ctx.replay_path(R.to_replay(g, {"what": "verdict with model-built VTBs differs", "block": a, "model": mv, "library": iv}))
+                    ctx.broken.append("corr:C19HonestDefs.honest_vtbs+apply_chain: first disagreeing input %s: %s vs %s" % (pth, mv, iv))
+    ctx.cov["honest_vtb_construction"] = st
+    ctx.cov["disagreements_checked"] = ctx.cov.get("disagreements_checked", 0) + st["vtbs_compared"] + st["verdicts_compared"]
+
+
 def run(ctx):
     ctx.prove()
     if ctx.replay and "lines" in ctx.replay:
@@ -91,3 +249,5 @@ def run(ctx):
                        "non-violations of the rule set, mempool deliveries, payout-distance scenarios and fork resolution "
                        "pairs; distinct = distinct (kind, depth, length)")
     R.check(vlib, ctx, "C19", cases)
+    if not ctx.replay:
+        honest_vtb_stage(ctx)
